@@ -129,7 +129,10 @@ EncResult(j, s) ==
       rt |-> e.faults = {} /\ r.faults = {} /\ r.val = s.val,
       root |-> Chain(d, id)[1].id,
       pyback |-> IF e.faults = {} THEN PyParse(d, Chain(d, id)[1].id, e.bytes)
-                 ELSE [faults |-> {}, cls |-> "", val |-> NoneV]]
+                 ELSE [faults |-> {}, cls |-> "", val |-> NoneV],
+      (* Java binding: may the dispatching entry point of the root reject these octets?  (a value of a parent type  *)
+      (* whose fields match a child's constraints while its payload does not parse as that child)                    *)
+      javareject |-> e.faults = {} /\ \E o \in JavaOutcomes(d, Chain(d, id)[1].id, e.bytes) : o.reject]
 
 DecResult(j, s) ==
   LET d == D(j)  id == T(j)
